@@ -7,7 +7,7 @@ open F1.Util F1.Parse F1.Plan F1.Cli
 Case keys (all optional except mode): `mode` (constant|staged|ramp|gaussian|users|file), hex strings `rate dist
 stages srate erate weights freq rampdur stddev dur`, decimal `conc maxit maxfail maxfailrate`, `igndrop=1`,
 `scenario=0` (unknown scenario name), `raw=<hex>` (an extra argument cobra/pflag refuses), scenario body
-`failevery bodyms setupfail tdfail`, and for mode=file the stage list `fstages` with `fdur` (ms) and the limits above.
+`failevery failkind bodyms setupfail tdfail`, `combine=1 twice=1 sigint=<ms> logfile=good|bad`, and for mode=file the stage list `fstages` with `fdur` (ms) and the limits above.
 impl: `err=<0|1> banner=<pass|fail|none> stats=<s>/<f>/<d> truth=<s>/<f> setups=<n> started=<n> maxflight=<n> ret=<ms>`.
 Model output: `accept <interval> <conc> <maxDurNs> <maxit> <maxfail> <maxfailrate> <igndrop>` | `reject`; the
 implementation side prints `accept`/`reject` only, so the correspondence is on the first token. -/
@@ -83,6 +83,10 @@ def cliOp (args impl : List String) : Option (String × String) := do
         else if (n "err" = 1) ≠ specErr then "FAIL exit-status-differs-from-documented-verdict"
         else if wantErr ≠ specErr then "FAIL model-exit-differs-from-spec"
         else if (out "banner" = "fail") ≠ specErr then "FAIL banner-differs-from-verdict"
+        else if (get "combine") = some "1" ∧ ¬setupFailed ∧
+            n "later" ≠ (truth.getD 0 0) + (if (get "failkind") = some "errorf" then truth.getD 1 0 else 0) then
+          "FAIL later-component-of-a-combined-scenario-did-not-run-exactly-when-the-earlier-one-did-not-stop"
+        else if out "envAfter" = "dirty" then "FAIL stage-parameters-remain-set-after-the-run"
         else
           -- the run lasts as long as the flags say (only when neither the iteration limit nor the trigger's own
           -- duration ends it first): never shorter than max-duration less the 10 ms guard and one timer slack
@@ -90,15 +94,24 @@ def cliOp (args impl : List String) : Option (String × String) := do
           let total := n "started" + (dropped : Int)
           -- constant mode, distribution none, no jitter: the rate string means N per unit
           let bounds : Option (Int × Int) :=
-            if (get "meaning") = some "1" ∧ ¬setupFailed then
+            if ((get "meaning") = some "1" ∨ (get "meaningmax") = some "1") ∧ ¬setupFailed then
               match parseRate (cargs.rate.getD dfltRate) with
               | .ok (cnt, unit) =>
-                let evalsMax := 1 + p.maxDur / unit
+                -- a distributed rate is evaluated once per cycle of ⌊unit / 100 ms⌋ sub-ticks of 100 ms
+                let cycle := if p.interval < unit ∧ p.interval > 0 then (unit / p.interval) * p.interval else unit
+                let evalsMax := 1 + p.maxDur / cycle
                 let lo := if p.maxIt > 0 ∧ (p.maxIt : Int) < cnt then (p.maxIt : Int) else cnt
-                some (lo, cnt * evalsMax)
+                -- a distributed rate spreads each cycle over the unit: only the ceiling holds for short runs
+                some (if (get "meaning") = some "1" then lo else 0, cnt * evalsMax)
               | _ => none
             else none
-          if (get "timing") = some "1" ∧ n "ret" < durMs - 15 then "FAIL run-ended-before-max-duration"
+          -- ticks of a rate-driven trigger: at most one per tick interval (+ the immediate one); and, when the run is long
+          -- enough to tell, not far fewer (a trigger ticking at another interval than the one its rate function is for)
+          let expTicks : Int := if p.interval > 0 then p.maxDur / p.interval else 0
+          if (get "timing") = some "1" ∧ p.interval > 0 ∧ n "ticks" > expTicks + 2 then "FAIL more-ticks-than-one-per-interval"
+          else if (get "timing") = some "1" ∧ p.interval > 0 ∧ expTicks ≥ 5 ∧ n "ticks" * 10 < expTicks * 4 then
+            "FAIL far-fewer-ticks-than-the-tick-interval-of-the-rate-function"
+          else if (get "timing") = some "1" ∧ (get "sigint").isNone ∧ n "ret" < durMs - 15 then "FAIL run-ended-before-max-duration"
           else if (get "timing") = some "1" ∧ n "ret" > durMs + 2500 then "FAIL run-did-not-stop-at-max-duration"
           else match bounds with
             | some (lo, hi) =>
